@@ -27,7 +27,9 @@ A case is non-trivial when the call reaches a kernel (API stream) / touches at l
 """
 import hashlib
 import json
+import os
 import re
+import shutil
 import subprocess
 import time
 from concurrent.futures import ThreadPoolExecutor
@@ -43,14 +45,19 @@ PID = "C05"
 CT = {"int": "int", "long long": "ll", "double": "double"}
 DTYPES = {"int": "<i4", "long long": "<i8", "double": "<f8"}
 
+# classes of the API stream in which the USER supplies an array the wrapper passes on unchanged with a shape the
+# Cython asserts must refuse (the PyAlloc relations are about what the wrappers allocate themselves)
+USER_SHAPED = ("shape_", "pts_", "points_", "polygon_", "inside_", "mask_", "mismatch", "cells_", "lev_", "txx_",
+               "wronglen", "fin_mismatch", "nan_mismatch", "inf_mismatch", "huge_mismatch", "neg_mismatch", "zero_mismatch")
+
 PROVED = ["c_aggregate", "c_flathomogen", "c_islin", "c_eckhardt", "c_var2h", "c_combi", "c_dateutils_daysinmonth",
           "c_dateutils_dayofyear", "c_dateutils_add1month", "c_dateutils_add1day", "c_dateutils_getdate",
           "c_dateutils_comparedates", "c_armodel_sim", "c_armodel_residual", "c_crps", "c_ensrank", "c_ad_test (ADtest)",
           "c_paretofront", "c_olsleverage", "c_coord2cell", "c_cell2coord", "c_cell2rowcol", "c_neighbours",
           "c_upstream", "c_downstream", "c_accumulate", "c_slope", "c_slice", "c_intersect", "c_voronoi", "c_inside",
           "c_exclude_zero_area_boundary", "c_delineate_river", "c_delineate_flowpathlengths_in_catchment",
-          "c_delineate_boundary"]
-ORACLE_ONLY = ["c_delineate_area", "c_dateutils_isleapyear",
+          "c_delineate_boundary", "c_delineate_area"]
+ORACLE_ONLY = ["c_dateutils_isleapyear (no buffer, no divisor that can be 0)",
                "qsort / libm / the Cython-generated glue"]
 
 
@@ -119,6 +126,27 @@ class Boundary:
     def __init__(self, specs, externs):
         self.specs = {s["name"]: s for s in specs}
         self.externs = externs
+
+    def pyalloc(self, rec):
+        """-> None (nothing to say) or False: the arrays the Python wrapper allocated are not sized as modelled"""
+        sp = self.specs.get(rec["fn"])
+        f = M.PYALLOC.get(rec["fn"])
+        if sp is None or f is None or rec.get("args") is None or len(rec["args"]) != len(sp["argnames"]):
+            return None
+        S, V = {}, {}
+        for name, val in zip(sp["argnames"], rec["args"]):
+            kind, ctype, ndim = sp["argkinds"][name]
+            if kind == "buf":
+                if not isinstance(val, dict) or len(val["shape"]) != ndim:
+                    return None             # a user array of the wrong rank: Cython refuses it
+                for k, n in enumerate(val["shape"]):
+                    S[f"{name}_{k}"] = n
+            elif isinstance(val, int):
+                V[name] = val
+        try:
+            return None if f(S, V) else False
+        except KeyError:
+            return None
 
     def call(self, rec):
         """-> (callee, P, B, D) or None"""
@@ -197,6 +225,11 @@ def api_part(ctx, specs, externs, asan_dir, workroot):
     nomodel = 0
     for i, r in enumerate(results):
         for rec in r.get("calls", []):
+            if bnd.pyalloc(rec) is False and not probes[i]["cls"].split("/")[-1].startswith(USER_SHAPED):
+                ctx.disagree(f"PyAlloc: the arrays handed to c_hydrodiy.{rec['fn']} are not sized the way the model of "
+                             "the Python wrapper says (Lemmas/C05Wrap.lean, harness/c05_model.py PYALLOC)",
+                             {"probe": probes[i], "call": {"fn": rec["fn"], "args": [
+                                 a if not isinstance(a, dict) else {"d": a["d"], "shape": a["shape"]} for a in rec["args"]]}})
             kc = bnd.call(rec)
             if kc is None:
                 continue
@@ -223,6 +256,10 @@ def api_part(ctx, specs, externs, asan_dir, workroot):
             v["bad"].append((rep, ln[:300]))
     entries = {}
     for i, (p, r) in enumerate(zip(probes, results)):
+        if r["ret"] == "skipped":
+            # the entry point had already killed several workers of this batch (each death is a finding made above)
+            ctx.count((p["entry"], "skipped", i), nontrivial=False, branch=f"api:{p['entry']}:skipped-after-deaths")
+            continue
         clean = not r["reports"] and r["ret"] not in ("died", "timeout", "notrun")
         v = verdict.get(i, {"n": 0, "bad": []})
         reached = len(r.get("calls", [])) > 0
@@ -359,9 +396,13 @@ def body(ctx):
         # still exercises the recorded generated C with the current kernels.
         ctx.assumptions.append("the .pyx differs from the one the vendored Cython C was generated from: "
                                + ", ".join(ainfo["stale_pyx"]))
-    workroot = C.BUILD / f"c05-run-{ctx.seed}-{ctx.tier}"
+    workroot = C.BUILD / f"c05-run-{os.getpid()}"
     api_part(ctx, specs, externs, asan_dir, workroot)
     tight_part(ctx, externs, asan_dir, reclib, workroot)
+    if not ctx.findings and not ctx.disagreements:
+        shutil.rmtree(workroot, ignore_errors=True)     # status files and sanitizer logs are kept only for a failure
+    else:
+        ctx.extra["worker_files"] = str(workroot)
     ctx.extra["rule"] = (
         "API stream: per entry point lengths 0..8 (x repetitions) then random larger ones, value classes finite / NaN / "
         "all-NaN / +-inf / huge / negative / zero / ties, options at and beyond their ranges, shapes the wrappers must "
